@@ -27,6 +27,7 @@ import (
 	"encoding/json"
 	"fmt"
 	"math/rand"
+	"sort"
 	"strings"
 	"sync"
 	"testing"
@@ -40,6 +41,7 @@ import (
 	"github.com/libp2p/go-libp2p/core/peerstore"
 	"github.com/libp2p/go-libp2p/core/protocol"
 	"github.com/libp2p/go-libp2p/p2p/transport/tcp"
+	"github.com/libp2p/go-msgio/pbio"
 	"github.com/multiformats/go-multiaddr"
 	"google.golang.org/protobuf/proto"
 	"google.golang.org/protobuf/types/known/anypb"
@@ -83,6 +85,9 @@ type SigSpec struct {
 //	sigreq scripted member From sends a signature request (ID, P) to member To in session S
 //	msg    scripted member From sends the message (ID, P, Sigs) to member To in session S
 //	policy scripted member M answers honest clients' signature requests: coop | refuse | junk
+//	race   scripted member From fires, for every id in IDs and every honest member, K signature requests with K
+//	       DIFFERENT payloads concurrently (streams opened first, then released together); where every honest
+//	       member answered two payloads it completes the attack (payload P to one member, Q to another)
 type Op struct {
 	Op   string    `json:"op"`
 	S    int       `json:"s,omitempty"`
@@ -93,6 +98,8 @@ type Op struct {
 	P    [2]int    `json:"p,omitempty"`
 	Sigs []SigSpec `json:"sigs,omitempty"`
 	Mode string    `json:"mode,omitempty"`
+	IDs  []int     `json:"ids,omitempty"`
+	K    int       `json:"k,omitempty"`
 }
 
 // Script is a scenario and, after it ran, what was observed.
@@ -236,6 +243,10 @@ func checkFor(id int, from int, a *anypb.Any) bool {
 	case 3:
 		return from != 0
 	}
+	if id >= 100 { // ids of the race class: as id 1
+		var ts timestamppb.Timestamp
+		return a.UnmarshalTo(&ts) == nil
+	}
 	return false
 }
 
@@ -330,6 +341,28 @@ func (l *logSink) classify(pos int, name string, isMsg bool) string {
 		return ""
 	}
 	return ""
+}
+
+// classes returns the distinct error classes of the handler errors logged since pos for remote peer `name`.
+func (l *logSink) classes(pos int, name string, isMsg bool) []string {
+	n := l.pos()
+	seen := map[string]bool{}
+	var out []string
+	for i := pos; i < n; i++ {
+		l.mu.Lock()
+		m := l.lines[i]
+		l.mu.Unlock()
+		if fmt.Sprint(m["peer"]) != name || !strings.Contains(fmt.Sprint(m["msg"])+" "+fmt.Sprint(m["error"]), "stream handler") {
+			continue
+		}
+		one := &logSink{lines: []map[string]any{m}}
+		c := one.classify(0, name, isMsg)
+		if !seen[c] {
+			seen[c] = true
+			out = append(out, c)
+		}
+	}
+	return out
 }
 
 // ---------------------------------------------------------------------------------------------
@@ -787,6 +820,160 @@ func (r *runner) doMsg(op Op) {
 	r.add(&event{kind: "msg", s: op.S, r: op.To, q: op.From, id: op.ID, p: op.P, sigs: terms, um: uerr == nil, obs: obs})
 }
 
+// rawSigReq opens the stream first, waits for the release, then writes the request and reads the response
+// (same framing as p2p.SendReceive: one varint-delimited protobuf each way).
+func (r *runner) rawSigReq(ctx context.Context, s, from, to, id int, p [2]int, ready *sync.WaitGroup, start <-chan struct{}) ([]byte, error) {
+	c := r.c
+	st, err := c.hosts[s][from].NewStream(ctx, c.peers[to], protoSig)
+	ready.Done()
+	if err != nil {
+		return nil, err
+	}
+	defer st.Close()
+	_ = st.SetDeadline(time.Now().Add(60 * time.Second))
+	<-start
+	if err := pbio.NewDelimitedWriter(st).WriteMsg(&pb.BCastSigRequest{Id: idName(id), Message: mkAny(p)}); err != nil {
+		return nil, err
+	}
+	_ = st.CloseWrite()
+	resp := new(pb.BCastSigResponse)
+	if err := pbio.NewDelimitedReader(st, 1<<20).ReadMsg(resp); err != nil {
+		return nil, err
+	}
+	return resp.GetSignature(), nil
+}
+
+type raceRes struct {
+	to, id int
+	p      [2]int
+	sig    []byte
+	err    error
+}
+
+func (r *runner) doRace(op Op) {
+	c, sc := r.c, r.sc
+	ctx, cancel := context.WithTimeout(context.Background(), 120*time.Second)
+	defer cancel()
+	hs := honestOf(c.n, sc.Faulty)
+	k := op.K
+	if k < 2 {
+		k = 2
+	}
+	e0, l0 := r.nEvents(), c.logs.pos()
+	var (
+		resMu sync.Mutex
+		res   []raceRes
+	)
+	for _, id := range op.IDs {
+		kk := 2 + (id+k)%(k-1) // 2..k payloads, varying with the id
+		var ready, done sync.WaitGroup
+		start := make(chan struct{})
+		for _, to := range hs {
+			for j := 0; j < kk; j++ {
+				to, p := to, [2]int{0, 20 + j}
+				ready.Add(1)
+				done.Add(1)
+				go func() {
+					defer done.Done()
+					sig, err := r.rawSigReq(ctx, op.S, op.From, to, id, p, &ready, start)
+					resMu.Lock()
+					res = append(res, raceRes{to: to, id: id, p: p, sig: sig, err: err})
+					resMu.Unlock()
+				}()
+			}
+		}
+		ready.Wait()
+		close(start)
+		done.Wait()
+	}
+	// Attach the responses to the hook events (one per request: the payloads of a group differ).
+	cls := c.logs.classes(l0, p2p.PeerName(c.peers[op.From]), false)
+	class := ""
+	if len(cls) == 1 {
+		class = cls[0]
+	}
+	answered := map[[2]int]map[[2]int]bool{} // (to, id) -> payloads answered with a valid signature
+	for _, x := range res {
+		var obs string
+		if x.err == nil {
+			kx := sigKey{M: x.to, S: op.S, Q: op.From, ID: x.id, P: x.p}
+			term := r.sigTerm(x.sig, &kx)
+			obs = "(OSig (" + term + "))"
+			if strings.HasPrefix(term, "Sig ") {
+				g := [2]int{x.to, x.id}
+				if answered[g] == nil {
+					answered[g] = map[[2]int]bool{}
+				}
+				answered[g][x.p] = true
+			}
+		} else {
+			obs = r.errObs("OSErr", class)
+		}
+		ev := r.pending(e0, func(e *event) bool {
+			return e.kind == "sigreq" && e.s == op.S && e.r == x.to && e.q == op.From && e.id == x.id && e.p == x.p && e.obs == ""
+		})
+		r.mu.Lock()
+		if ev != nil {
+			ev.obs = obs
+		} else {
+			r.events = append(r.events, &event{kind: "sigreq", s: op.S, r: x.to, q: op.From, id: x.id, p: x.p, ck: checkFor(x.id, op.From, mkAny(x.p)), obs: obs})
+		}
+		r.mu.Unlock()
+	}
+	// The handler invocations of this step were concurrent: they have no observable order.  Any linearisation is
+	// admissible; the one rendered puts the answered requests before the refused ones (a refusal changes nothing,
+	// and a dedup entry, once made, stays).
+	r.mu.Lock()
+	tail := r.events[e0:]
+	sort.SliceStable(tail, func(i, j int) bool {
+		ri := tail[i].kind == "sigreq" && strings.Contains(tail[i].obs, "OSErr")
+		rj := tail[j].kind == "sigreq" && strings.Contains(tail[j].obs, "OSErr")
+		return !ri && rj
+	})
+	groups, both := 0, 0
+	for _, id := range op.IDs {
+		for _, to := range hs {
+			groups++
+			if len(answered[[2]int{to, id}]) >= 2 {
+				both++
+			}
+		}
+	}
+	r.stats["race_groups"] += groups
+	r.stats["race_requests"] += len(res)
+	r.stats["race_groups_two_payloads_signed"] += both
+	r.mu.Unlock()
+	// Complete the attack where possible: payloads for which every honest member gave a signature.
+	completed, plain := 0, 0
+	for _, id := range op.IDs {
+		var full [][2]int
+		for j := 0; j < k+1; j++ {
+			p := [2]int{0, 20 + j}
+			all := len(hs) > 0
+			for _, to := range hs {
+				all = all && answered[[2]int{to, id}][p]
+			}
+			if all {
+				full = append(full, p)
+			}
+		}
+		switch {
+		case len(full) >= 2 && len(hs) >= 2 && completed < 3:
+			completed++
+			r.doMsg(Op{Op: "msg", S: op.S, From: op.From, To: hs[0], ID: id, P: full[0], Sigs: fullSet(c.n, op.S, op.From, id, full[0])})
+			r.doMsg(Op{Op: "msg", S: op.S, From: op.From, To: hs[1], ID: id, P: full[1], Sigs: fullSet(c.n, op.S, op.From, id, full[1])})
+		case len(full) == 1 && plain < 3:
+			plain++
+			for _, to := range hs {
+				r.doMsg(Op{Op: "msg", S: op.S, From: op.From, To: to, ID: id, P: full[0], Sigs: fullSet(c.n, op.S, op.From, id, full[0])})
+			}
+		}
+	}
+	r.mu.Lock()
+	r.stats["race_attacks_completed"] += completed
+	r.mu.Unlock()
+}
+
 func (r *runner) doBcast(op Op) {
 	c := r.c
 	ctx, cancel := r.ctx()
@@ -914,6 +1101,8 @@ func runScript(t *testing.T, c *cluster, sc *Script) {
 			bad = bad || op.From < 0 || op.From > c.n || !sc.isFaulty(op.From) || op.To < 0 || op.To >= c.n || op.To == op.From
 		case "policy":
 			bad = op.M < 0 || op.M > c.n || !sc.isFaulty(op.M)
+		case "race":
+			bad = bad || op.From < 0 || op.From > c.n || !sc.isFaulty(op.From) || len(op.IDs) == 0 || op.K > 6
 		default:
 			bad = true
 		}
@@ -940,6 +1129,8 @@ func runScript(t *testing.T, c *cluster, sc *Script) {
 			r.doSigReq(op)
 		case "msg":
 			r.doMsg(op)
+		case "race":
+			r.doRace(op)
 		}
 	}
 	r.render()
@@ -1287,6 +1478,19 @@ func (g *gen) random(kind string) *Script {
 	return sc
 }
 
+// raceScript: concurrent conflicting signature requests over many registered ids (a probabilistic detector for
+// non-atomic check-and-store in the dedup of handleSigRequest).
+func raceScript(n int, g *gen, nids int) *Script {
+	fl := []int{g.rng.Intn(n)}
+	var ids []int
+	for i := 0; i < nids; i++ {
+		ids = append(ids, 100+i)
+	}
+	ops := regAll(n, fl, []int{1}, ids)
+	ops = append(ops, Op{Op: "race", S: 1, From: fl[0], IDs: ids, K: 3})
+	return &Script{Kind: "race", N: n, Faulty: fl, Ops: ops}
+}
+
 // ---------------------------------------------------------------------------------------------
 
 func TestGen(t *testing.T) {
@@ -1322,6 +1526,7 @@ func TestGen(t *testing.T) {
 		c.detectScheme(t)
 		g := &gen{rng: rng, n: n}
 		scs := corpus(n)
+		scs = append(scs, raceScript(n, g, hx.IntEnv("VERIF_RACE_IDS", 150)))
 		for len(scs) < total/len(sizes) {
 			scs = append(scs, g.random("random"))
 		}
